@@ -153,7 +153,9 @@ type Stats struct {
 	Outcomes    map[string]int64
 	NonTrivial  map[string]struct{}
 	Samples     []interface{}
-	Violations  []FoundViolation
+	Violations  []FoundViolation // one representative per fingerprint
+	byFp        map[string]int
+	ViolationCount int64 // total number of violating oracle evaluations
 	ToolErrs    []string
 	Inconcl     int64
 	InconclWhy  map[string]int64
@@ -197,9 +199,19 @@ func (s *Stats) Absorb(prefix []Point, r *Result, dev int) {
 		s.Samples = append(s.Samples, r.Sample)
 	}
 	for _, v := range r.Violations {
-		if len(s.Violations) < 200 {
+		// keep one representative (the shortest choice vector) per fingerprint, for every fingerprint
+		if s.byFp == nil {
+			s.byFp = map[string]int{}
+		}
+		if i, ok := s.byFp[v.Fingerprint]; ok {
+			if len(r.Points) < len(s.Violations[i].Prefix) {
+				s.Violations[i] = FoundViolation{v, append([]Point(nil), r.Points...)}
+			}
+		} else if len(s.Violations) < 5000 {
+			s.byFp[v.Fingerprint] = len(s.Violations)
 			s.Violations = append(s.Violations, FoundViolation{v, append([]Point(nil), r.Points...)})
 		}
+		s.ViolationCount++
 	}
 	if r.ToolErr != "" && len(s.ToolErrs) < 20 {
 		s.ToolErrs = append(s.ToolErrs, r.ToolErr)
